@@ -546,6 +546,48 @@ func (g *Gen) Step() {
 	m.Out.Count("op:" + kind)
 }
 
+var totpSecrets = []string{"JBSWY3DPEHPK3PXP", "KRSXG5CTMVRXEZLU", "MFRGGZDFMZTWQ2LK"}
+var recPool = []string{"abcde-fghij", "kmnop-qrstu", "vwxyz-01234", "56789-abcde"}
+
+// SeedAccounts starts some accounts in deep reachable states (confirmed, with a second
+// factor, with one-time passwords, locked, ...) so that short random histories reach the
+// interesting interleavings.
+func (g *Gen) SeedAccounts() {
+	for i, a := range g.Accts {
+		if g.R.Intn(10) < 3 {
+			continue // this account has to be registered the normal way
+		}
+		pw := goodPWs[i%len(goodPWs)]
+		confirmed := g.R.Intn(5) != 0
+		var otps, rec []string
+		totpS, sms := "", ""
+		if g.R.Intn(3) == 0 {
+			otps = []string{fmt.Sprintf("0000000%d-11111111-22222222-33333333", i)}
+		}
+		switch g.R.Intn(5) {
+		case 0, 1:
+			totpS = totpSecrets[i%len(totpSecrets)]
+		case 2:
+			sms = a.Phone
+		case 3:
+			totpS, sms = totpSecrets[i%len(totpSecrets)], a.Phone
+		}
+		if totpS != "" || sms != "" {
+			rec = []string{recPool[i%len(recPool)], recPool[(i+1)%len(recPool)]}
+		}
+		attempts, hasLast, hasLocked := 0, false, false
+		var lastT, lockedT time.Duration
+		switch g.R.Intn(6) {
+		case 0: // locked right now
+			attempts, hasLast, hasLocked, lockedT = g.M.Cfg.LockAfter, true, true, g.M.Cfg.LockDuration
+		case 1: // one failure short of the threshold
+			attempts, hasLast = g.M.Cfg.LockAfter-1, true
+		}
+		g.M.SeedUser(a.PID, pw, confirmed, attempts, lastT, lockedT, hasLast, hasLocked, otps, totpS, sms, rec)
+		a.Exists, a.PW, a.OTPs, a.RecCodes = true, pw, append([]string{}, otps...), append([]string{}, rec...)
+	}
+}
+
 // RandomCfg draws a configuration: module subset in random order, thresholds, modes.
 func RandomCfg(r *rand.Rand) world.Cfg {
 	c := world.DefaultCfg()
@@ -604,6 +646,7 @@ func RunRandom(name string, seed int64, cases, steps int, tune func(*Gen)) *wire
 		if tune != nil {
 			tune(g)
 		}
+		g.SeedAccounts()
 		prev := ""
 		for i := 0; i < steps; i++ {
 			n0 := len(out.Ops)
